@@ -28,6 +28,9 @@ type Prosumer struct {
 	client        *core.Client
 	proxy         prosumer
 	callbacks     sync.Map // map[string]func(Message)
+	dispatchLock  sync.Mutex
+	pending       []map[string][]Message
+	dispatching   bool
 	RetryInterval time.Duration
 	OnError       func(error)
 	OnSubscribe   func(topic string)
@@ -107,6 +110,33 @@ func (p *Prosumer) dispatch(topics map[string][]Message) {
 	}
 }
 
+// enqueue hands a batch to the single dispatching goroutine: batches are dispatched in the
+// order they were received, without holding up the polling loop.
+func (p *Prosumer) enqueue(topics map[string][]Message) {
+	p.dispatchLock.Lock()
+	p.pending = append(p.pending, topics)
+	if !p.dispatching {
+		p.dispatching = true
+		go p.drain()
+	}
+	p.dispatchLock.Unlock()
+}
+
+func (p *Prosumer) drain() {
+	for {
+		p.dispatchLock.Lock()
+		if len(p.pending) == 0 {
+			p.dispatching = false
+			p.dispatchLock.Unlock()
+			return
+		}
+		topics := p.pending[0]
+		p.pending = p.pending[1:]
+		p.dispatchLock.Unlock()
+		p.dispatch(topics)
+	}
+}
+
 func (p *Prosumer) call(callback Callback, message Message) {
 	switch callback := callback.(type) {
 	case func(Message):
@@ -143,7 +173,7 @@ func (p *Prosumer) message() {
 			if topics == nil {
 				return
 			}
-			go p.dispatch(topics)
+			p.enqueue(topics)
 		}
 		for err != nil {
 			if !core.IsTimeoutError(err) {
